@@ -49,11 +49,11 @@ claimed = {
          "DESIGN.md §4 C15"),
  "C04": ("explicit-state exploration of commit / no-op commit / prune / rollback / reopen / export-pin histories; after every step contents, hashes and proofs of every later version are compared with the model, live and on a fresh instance",
          "All histories over {Set, Remove, SaveVersion with and without writes, DeleteVersionsTo(n) for every n (one or many versions per call, repeated), LoadVersionForOverwriting, reopen, export open/close, ReadEverything} up to the bounds in the evidence, under flush thresholds {150,400,default} x cache {0,3,1000} x fast on/off: after every step every retained version's contents, root hash and proofs equal the model, also on a fresh instance opened on a copy of the storage; requests that must be rejected (n >= latest, version pinned by an open export - up to two exports open at a time, every exporter closed twice) return an error and leave the storage byte-identical.",
-         "Bounded: 2-3 keys, depth <= 11 (narrow alphabet) / <= 8 (full alphabet), <= 4 maintenance steps.",
+         "Bounded: 2-3 keys, depth <= 11 (narrow alphabet) / <= 8 (full alphabet), <= 4 maintenance steps. Also: ImmutableTrees held across prunings, pruning by an instance that has not loaded anything, and a family of long version chains (every prune point of every chain up to 22 / 64 versions, in one call or version by version).",
          "DESIGN.md §4 C04"),
  "C09": ("explicit-state exploration with a rollback-heavy alphabet, all model oracles after every step, and a twin instance replaying only the surviving history (differential oracle on the raw tree-node records and index)",
          "All histories with Rollback, LoadVersionForOverwriting(v) and DeleteVersionsFrom(v+1)+LoadVersion(v) for every retained v (incl. latest and first), nested, after pruning, followed by further writes/commits/prunes/reopens: after every step all reads, hashes, version bookkeeping, fast-index coherence and storage reachability equal the model (live and after restart), and the store's tree-node records equal those of a twin that replays only the surviving history (byte for byte, after resolving root references and child links the way GetRoot/GetNode do).",
-         "Bounded: 1-3 keys, depth <= 10, cache {0,2,3,1000}, fast on/off.",
+         "Bounded: 1-3 keys, depth <= 10, cache {0,2,3,1000}, fast on/off. Also: rollback by a new instance that calls DeleteVersionsFrom before loading anything, idempotent re-commits, and a family of long version chains (every rollback pair (latest, target) up to 24 / 112 versions).",
          "DESIGN.md §4 C09"),
  "C02": ("explicit-state exploration of write/commit/maintenance histories on the real code with an independent reference implementation of the IAVL+ rules as hash oracle; read-only calls explored as bounded deviations",
          "Every SaveVersion hash, the WorkingHash before it, Hash() and the hash of every retained version in every explored state are compared with an independent implementation of the documented insertion/removal/rebalancing/versioning/hashing rules (check/ref), over all write histories on a 7-key set (all rotation cases) and over 3-key histories with reopen / prune / rollback-and-redo / export-import points, under 13 configurations incl. non-default initial versions; each of 12 kinds of read-only call is inserted at every position (bounded number per history) and must not change any later hash.",
@@ -81,11 +81,11 @@ claimed = {
          "DESIGN.md §4 C12"),
  "C14": ("explicit-state exploration incl. no-op commits, empty/one-leaf trees, prune, rollback, reopen at latest or older version and re-commit; oracle = version range of the model on the live instance, on a fresh instance and on scratch instances",
          "After every step: AvailableVersions, GetLatestVersion, VersionExists(v), GetImmutable(v), GetVersioned/GetVersionedProof(k,v) for every v in 0..latest+1 agree with the model's contiguous range on the live instance and on a fresh instance opened on a copy of the storage; LoadVersion(v) on scratch instances succeeds iff v is retained and leaves the tree usable; SaveVersion numbers are consecutive from 1 / the initial version; re-commit of an existing version succeeds iff the hash is identical and leaves the storage byte-identical either way.",
-         "Bounded: 2 keys, depth <= 8, <= 3 maintenance steps; InitialVersion in {unset,1,7}.",
+         "Bounded: 2 keys, depth <= 8, <= 3 maintenance steps; InitialVersion in {unset,1,7} by option and by SetInitialVersion; InitialVersion 0 by a separate exhaustive enumeration (c14_iv0.go); version queries also on an instance that has not loaded anything; Version() / WorkingVersion() compared with the model; long prune chains.",
          "DESIGN.md §4 C14"),
  "C01": ("explicit-state exploration of operation histories on the real code (BFS, canonical complete-state de-duplication) with a versioned-map reference model as oracle",
          "All histories over {Set, Remove, Set(nil), SaveVersion, Rollback, reopen with changed options, LoadVersion, DeleteVersionsTo, LoadVersionForOverwriting} on 3 colliding keys x 2 values up to the depth / maintenance bound listed in the evidence are executed on the real iavl code under 13+ configurations (cache, fast index, flush threshold, sync, initial version, MemDB/PrefixDB/GoLevelDB); after every transition every read of the working state and of every retained version is compared with the model.",
-         "Trusted: the Go toolchain, the harness (vstore, model, reference tree; the model cross-checks its map against the reference tree on every commit). Bounded: 3 keys, depth bound, <=2 maintenance operations per history.",
+         "Trusted: the Go toolchain, the harness (vstore, model, reference tree; the model cross-checks its map against the reference tree on every commit). Bounded: 3 keys, depth bound, <=2 maintenance operations per history. Narrow specifications explored deeper: one-key cache-dependence (depth 8), idempotent re-commits, versions obtained / rolled back / written again, held ImmutableTrees re-read after every later operation, the empty key as a stored key.",
          "DESIGN.md §4 C01"),
 }
 reasons_pending = "check not built yet in this round (planned, see DESIGN.md Appendix C); not claimed until it exists"
